@@ -65,7 +65,7 @@ def bounded(prop, unit_names, tier, seed):
     for eng in engines:
         t, prefix = ENGINES[eng]
         try:
-            p = _run(t, prefix + [tier, seed])
+            p = _run(t, prefix + [tier, seed], timeout=(7200 if tier == "thorough" else 900))
         except subprocess.TimeoutExpired:
             out["engines"].append({"tool": eng, "error": "bounded engine timed out"})
             continue
